@@ -436,6 +436,15 @@ unsafe impl GlobalAlloc for MonAlloc {
         if mode != MODE_OFF && self.attributed_free(ptr, layout, mode, false) {
             return;
         }
+        if mode != MODE_OFF && attributed_now() && (layout.size() == 0 || (ptr as usize) < 4096) {
+            // the library releases something that was never allocated (a zero-sized "block", a dangling sentinel address):
+            // recorded, and not forwarded to the system allocator
+            let g = lock();
+            let t = table(&g);
+            t.stats.invalid_layouts += 1;
+            t.event(Event { kind: b'I', ptr: ptr as usize, size: layout.size(), align: layout.align(), aux: 0, aux2: 0 });
+            return;
+        }
         System.dealloc(ptr, layout)
     }
     unsafe fn realloc(&self, ptr: *mut u8, layout: Layout, new_size: usize) -> *mut u8 {
